@@ -62,9 +62,191 @@ def start_state(real, rng):
     return kind, Deb822(text.splitlines()), list(pairs)
 
 
+# ------------------------------------------------------------------------------------------------
+# P-09a  LinkedList (debian._util) against an abstract sequence.
+#  Nodes are references into an array heap (one array per field); the list object carries two GHOST fields,
+#  ns (ghost array: ns[i] is the i-th node) and n (its length).  LL_INV is the representation invariant; every
+#  operation is verified from the real AST to preserve it and to change the abstract sequence as stated.
+import z3
+from vf.pyvc.speclib import SpecLib
+from vf.pyvc.world import World, Contract
+from vf.pyvc.values import VObj, VBox, VSeq, VInt, VRef, VArr, NONE, fresh, fresh_name, lift, sort_of
+from vf.pyvc.driver import verify_contracts
+
+UT = "debian._util"
+NODE = ("ref", "LinkedListNode")
+ITEM = "int"       # the element type of the generic containers: an opaque hashable value (only == and hashing are used on it)
+
+LL_INV = (
+    "self.n >= 0 and self._size == self.n",
+    "implies(self.n == 0, self.head_node is None and self.tail_node is None)",
+    "implies(self.n > 0, self.head_node is self.ns[0] and self.tail_node is self.ns[self.n - 1])",
+    "implies(self.n > 0, self.ns[0]._previous_node is None and self.ns[self.n - 1].next_node is None)",
+    # every node is allocated and knows its position (pos is a ghost map node -> index: makes the nodes pairwise distinct)
+    "forall(i, 0, self.n, allocated(self.ns[i]) and self.pos[self.ns[i]] == i)",
+    "forall(i, 0, self.n - 1, self.ns[i].next_node is self.ns[i + 1])",
+    "forall(i, 1, self.n, self.ns[i]._previous_node is self.ns[i - 1])",
+)
+VALUES_KEPT = "forall(i, 0, old(self.n), old(self.ns)[i].value == old(old(self.ns)[i].value))"
+GI = {"self.pos": "LinkedListNode"}
+
+
+def _ll(ex, name="self"):
+    return VObj("LinkedList", {"head_node": fresh(NODE, "head"), "tail_node": fresh(NODE, "tail"), "_size": fresh("int", "size"),
+                               "ns": fresh(("arr", NODE), "ns"), "n": fresh("int", "n"),
+                               "pos": fresh(("arr", "int"), "pos")}, name)
+
+
+class LLContract(Contract):
+    modular = False
+    requires = LL_INV
+    heap_mod = ("LinkedListNode.next_node", "LinkedListNode._previous_node", "LinkedListNode.value", "allocation")
+    modifies = ("self.head_node", "self.tail_node", "self._size", "self.ns", "self.n", "self.pos") + heap_mod
+    ghost_index = GI
+    solver_budget = 10        # every obligation of this family is discharged in < 0.5 s on the unchanged tree
+
+
+class LLAppend(LLContract):
+    target = UT + ":LinkedList.append"
+    returns = NODE
+    ghost_final = (("self.ns", "result if i == old(self.n) else old(self.ns)[i]"), ("self.n", "old(self.n) + 1"),
+                   ("self.pos", "old(self.n) if i is result else old(self.pos)[i]"))
+    ensures = LL_INV + ("self.n == old(self.n) + 1", "self.ns[old(self.n)] is result", "not old(allocated(result))",
+                        "forall(i, 0, old(self.n), self.ns[i] is old(self.ns)[i])", "result.value == value", VALUES_KEPT)
+
+    def setup(self, ex):
+        return {"self": _ll(ex), "value": fresh(ITEM, "value")}
+
+
+INS_AT = "new_node if i == {k} else (old(self.ns)[i] if i < {k} else old(self.ns)[i - 1])"
+POS_INS = "{k} if i is new_node else (old(self.pos)[i] + 1 if old(self.pos)[i] >= {k} else old(self.pos)[i])"
+INSERTED = ("self.n == old(self.n) + 1", "forall(i, 0, {k}, self.ns[i] is old(self.ns)[i])", "self.ns[{k}] is {new}",
+            "forall(i, {k} + 1, self.n, self.ns[i] is old(self.ns)[i - 1])")
+NEW_NODE_OK = ("allocated(new_node)", "new_node.next_node is None and new_node._previous_node is None",
+               "forall(i, 0, self.n, self.ns[i] is not new_node)")
+
+
+KX = "old(self.pos)[existing_node]"          # the index of the reference node: determined by the ghost position map
+IN_LIST = "0 <= self.pos[{x}] and self.pos[{x}] < self.n and self.ns[self.pos[{x}]] is {x}"
+
+
+class LLInsertNodeBefore(LLContract):
+    target = UT + ":LinkedList.insert_node_before"
+    requires = LL_INV + (IN_LIST.format(x="existing_node"),) + NEW_NODE_OK
+    ghost_final = (("self.ns", INS_AT.format(k=KX)), ("self.n", "old(self.n) + 1"), ("self.pos", POS_INS.format(k=KX)))
+    ensures = LL_INV + tuple(x.format(k=KX, new="new_node") for x in INSERTED) + ("result is new_node", VALUES_KEPT,
+                                                                                "new_node.value == old(new_node.value)")
+    returns = NODE
+
+    def setup(self, ex):
+        return {"self": _ll(ex), "new_node": fresh(NODE, "new_node"), "existing_node": fresh(NODE, "existing")}
+
+
+class LLInsertNodeAfter(LLInsertNodeBefore):
+    target = UT + ":LinkedList.insert_node_after"
+    ghost_final = (("self.ns", INS_AT.format(k="(%s + 1)" % KX)), ("self.n", "old(self.n) + 1"),
+                   ("self.pos", POS_INS.format(k="(%s + 1)" % KX)))
+    ensures = LL_INV + tuple(x.format(k="(%s + 1)" % KX, new="new_node") for x in INSERTED) + ("result is new_node", VALUES_KEPT,
+                                                                                       "new_node.value == old(new_node.value)")
+
+
+KN = "old(self.pos)[node]"
+
+
+class LLRemoveNode(LLContract):
+    target = UT + ":LinkedList.remove_node"
+    requires = LL_INV + (IN_LIST.format(x="node"),)
+    ghost_final = (("self.ns", "old(self.ns)[i] if i < %s else old(self.ns)[i + 1]" % KN), ("self.n", "old(self.n) - 1"),
+                   ("self.pos", "old(self.pos)[i] - 1 if old(self.pos)[i] > %s else old(self.pos)[i]" % KN))
+    ensures = LL_INV + ("self.n == old(self.n) - 1", "forall(i, 0, %s, self.ns[i] is old(self.ns)[i])" % KN,
+                        "forall(i, %s, self.n, self.ns[i] is old(self.ns)[i + 1])" % KN,
+                        "node.next_node is None and node._previous_node is None", "node.value == old(node.value)", VALUES_KEPT)
+
+    def setup(self, ex):
+        return {"self": _ll(ex), "node": fresh(NODE, "node")}
+
+
+class LLInsertAtHead(LLContract):
+    target = UT + ":LinkedList.insert_at_head"
+    returns = NODE
+    ghost_final = (("self.ns", "result if i == 0 else old(self.ns)[i - 1]"), ("self.n", "old(self.n) + 1"),
+                   ("self.pos", "0 if i is result else old(self.pos)[i] + 1"))
+    ensures = LL_INV + ("self.n == old(self.n) + 1", "self.ns[0] is result", "not old(allocated(result))",
+                        "forall(i, 1, self.n, self.ns[i] is old(self.ns)[i - 1])", "result.value == value", VALUES_KEPT)
+
+    def setup(self, ex):
+        return {"self": _ll(ex), "value": fresh(ITEM, "value")}
+
+
+class LLInsertBefore(LLContract):
+    target = UT + ":LinkedList.insert_before"
+    returns = NODE
+    requires = LL_INV + (IN_LIST.format(x="existing_node"),)
+    ghost_final = (("self.ns", INS_AT.format(k=KX).replace("new_node", "result")), ("self.n", "old(self.n) + 1"),
+                   ("self.pos", POS_INS.format(k=KX).replace("new_node", "result")))
+    ensures = LL_INV + tuple(x.format(k=KX, new="result") for x in INSERTED) + ("not old(allocated(result))",
+                                                                              "result.value == value", VALUES_KEPT)
+
+    def setup(self, ex):
+        return {"self": _ll(ex), "value": fresh(ITEM, "value"), "existing_node": fresh(NODE, "existing")}
+
+
+class LLInsertAfter(LLInsertBefore):
+    target = UT + ":LinkedList.insert_after"
+    ghost_final = (("self.ns", INS_AT.format(k="(%s + 1)" % KX).replace("new_node", "result")), ("self.n", "old(self.n) + 1"),
+                   ("self.pos", POS_INS.format(k="(%s + 1)" % KX).replace("new_node", "result")))
+    ensures = LL_INV + tuple(x.format(k="(%s + 1)" % KX, new="result") for x in INSERTED) + ("not old(allocated(result))",
+                                                                                     "result.value == value", VALUES_KEPT)
+
+
+class LLLen(LLContract):
+    target = UT + ":LinkedList.__len__"
+    modifies = ()
+    ensures = ("result == self.n",)
+
+    def setup(self, ex):
+        return {"self": _ll(ex)}
+
+
+class LLBool(LLLen):
+    target = UT + ":LinkedList.__bool__"
+    ensures = ("result == (self.n > 0)",)
+
+
+class LLPop(LLContract):
+    target = UT + ":LinkedList.pop"
+    requires = LL_INV
+    ghost_final = (("self.n", "old(self.n) - 1"),)
+    ensures = LL_INV + ("self.n == old(self.n) - 1", "forall(i, 0, self.n, self.ns[i] is old(self.ns)[i])", VALUES_KEPT)
+    modifies = tuple(m for m in LLContract.modifies if m not in ("self.ns", "self.pos"))
+    raises = {"IndexError": ("self.n == 0",)}
+    raises_modifies = {"IndexError": ()}
+
+    def setup(self, ex):
+        return {"self": _ll(ex)}
+
+
+def build_world_ll():
+    sl = SpecLib()
+    w = World(sl)
+    w.heap_classes["LinkedListNode"] = {"next_node": NODE, "_previous_node": NODE, "value": ITEM}
+    return w
+
+
+def run_deductive(ctx):
+    w = build_world_ll()
+    cs = [LLAppend(), LLInsertNodeBefore(), LLInsertNodeAfter(), LLRemoveNode(), LLInsertAtHead(), LLInsertBefore(),
+          LLInsertAfter(), LLLen(), LLBool(), LLPop()]
+    verify_contracts(ctx, w, cs, {})
+    ctx.assumptions.append("weak references are dereferenced as the object itself: referents are assumed to be alive (nodes are "
+                           "kept alive by the next_node chain from the list head)")
+    ctx.solve()
+
+
 def run(ctx):
     mod = extract.load(MOD)
     real = mod.real()
+    run_deductive(ctx)
     for q in ("Deb822Dict.__setitem__", "Deb822Dict.__getitem__", "Deb822Dict.__delitem__", "Deb822Dict.__contains__",
               "Deb822Dict.order_first", "Deb822Dict.order_last", "Deb822Dict.order_before", "Deb822Dict.order_after",
               "Deb822Dict.sort_fields", "Deb822Dict.copy", "Deb822Dict.__iter__", "Deb822Dict.__len__"):
